@@ -125,6 +125,14 @@ pub fn run() -> i32 {
     // base58 round trip, segwit decode
     check("base58check decode", base58check_decode("12higDjoCCNXSA95xZMWUdPvXNmkAduhWv").map(|x| x.0) == Some(0));
     check("segwit decode", segwit_decode("bc1qw508d6qejxtdg4y5r3zarvary0c5xw7kv8f3t4").map(|x| x.1) == Some(0));
+    // the partial txid collisions used by the UTXO generators
+    {
+        use crate::collide::*;
+        let (a, b) = (txid_of(&collision_tx(HEAD_PAIR.0)), txid_of(&collision_tx(HEAD_PAIR.1)));
+        check("txid head collision", a != b && a[..8] == b[..8]);
+        let (a, b) = (txid_of(&collision_tx(TAIL_PAIR.0)), txid_of(&collision_tx(TAIL_PAIR.1)));
+        check("txid tail collision", a != b && a[24..] == b[24..]);
+    }
     // varint
     check("core varint", core_varint(16512) == vec![0x80, 0x80, 0x00] && core_varint(128) == vec![0x80, 0x00]);
     if bad == 0 {
